@@ -32,6 +32,8 @@ fn vp_native_framing_decision_matrix() {
                 let mut cl_lists: Vec<Vec<&str>> = vec![vec![]];
                 for a in cl_values { cl_lists.push(vec![a]); }
                 for a in ["3", "5", "18446744073709551621", "x"] { for b in ["3", "5", "03"] { cl_lists.push(vec![a, b]); } }
+                // three and four copies: every position of a disagreeing or invalid copy
+                for l in [["3", "3", "3", "3"], ["3", "3", "5", "5"], ["3", "5", "3", "5"], ["5", "3", "3", "3"], ["3", "3", "3", "5"], ["3", "3", "x", "3"]] { cl_lists.push(l.to_vec()); cl_lists.push(l[..3].to_vec()); }
                 for cls in &cl_lists {
                     if cls.iter().any(|v| v.is_empty()) && cls.len() > 1 { continue; }
                     let mut wire = format!("HTTP/1.1 {} X\r\n", status).into_bytes();
@@ -89,11 +91,11 @@ fn vp_native_framing_decision_matrix() {
 #[test]
 fn vp_native_head_roundtrip_small() {
     let names = ["X-A", "x-b", "Set-Cookie", "Transfer-Encoding"];
-    let values: [&[u8]; 7] = [b"v", b"", b"a b", b"\xc3\xa9", b"a\n b", b"  padded  ", b"1, 2"];
+    let values: [&[u8]; 12] = [b"v", b"", b"a b", b"\xc3\xa9", b"a\n b", b"  padded  ", b"1, 2", b"\n foo", b"foo\n", b" \n ", b"\n\tfoo \n bar\n", b"a\n\nb"];
     let mut cases = 0u64;
     for status in [100u16, 200, 404, 599, 999] {
         for reason in ["", "OK", "Not Found At All"] {
-            for n1 in 0..names.len() { for v1 in 0..values.len() { for n2 in 0..names.len() { for v2 in [0usize, 2, 4] {
+            for n1 in 0..names.len() { for v1 in 0..values.len() { for n2 in 0..names.len() { for v2 in [0usize, 2, 4, 7, 8, 9, 10] {
                 let fields = [(names[n1], values[v1]), (names[n2], values[v2]), (names[n1], values[0])];
                 let mut wire = format!("HTTP/1.1 {} {}\r\n", status, reason).into_bytes();
                 for (n, v) in &fields { wire.extend_from_slice(n.as_bytes()); wire.extend_from_slice(b": "); wire.extend_from_slice(v); wire.extend_from_slice(b"\r\n"); }
